@@ -858,7 +858,7 @@ _vbi_raw_vbi_image		(uint8_t *		raw,
 do {									\
 	for (i = 0; i < samples_per_line; ++i) {			\
 		uint8_t *dd = d + i * (n);				\
-		unsigned int value = s[i] * 0x01010101;			\
+		unsigned int value = s[i] * 0x01010101U;		\
 		unsigned int mask = ~pixel_mask;			\
 									\
 		value = conv (value) & pixel_mask;			\
@@ -876,7 +876,7 @@ do {									\
 do {									\
 	for (i = 0; i < samples_per_line; ++i) {			\
 		uint8_t *dd = d + i * 2;				\
-		unsigned int value = s[i] * 0x01010101;			\
+		unsigned int value = s[i] * 0x01010101U;		\
 		unsigned int mask;					\
 									\
 		value = conv (value) & pixel_mask;			\
